@@ -19,6 +19,12 @@ C06Exact == /\ kind = "ibin" => ExactBin(op, a, b)
             /\ kind = "iun" => ExactUn(op, a)
 C09IntegerWhenFits == kind = "nbin" => IntegerWhenFits(op, a, b)
 C09Rounding == kind = "round" => RoundingCorrect(a, b)
+\* C15, first clause: on integer expressions eval_number returns Integer(v) whenever eval_i64 returns Ok(v) - every division exact
+C15IntNum == /\ (kind = "ibin" /\ op \in {"add", "sub", "mul", "div", "mod", "pow"}) =>
+                   LET ri == IBin(op, a, b) IN
+                   (ri.k = "ok" /\ (op = "div" => ITRem(a, b) = 0)) => NBinII(op, a, b) = NI(ri.v)
+             /\ (kind = "iun" /\ op \in {"neg", "abs", "sgn", "fact"}) =>
+                   LET ri == IUn(op, a) IN ri.k = "ok" => NUnI(op, a) = NI(ri.v)
 \* negative control: the wrapping arithmetic of the pinned release build is NOT the specified one (expected: violated)
 NeverWraps == kind = "ibin" => RawRelease(op, a, b) = IBin(op, a, b)
 
